@@ -13,6 +13,7 @@ was run to completion and judged by the execution that discovered it, and all of
 were queued then.  Every edge is still produced by executing the real code.
 """
 import collections
+import time
 
 
 class Pruned(BaseException):
@@ -53,12 +54,17 @@ class Ctx:
                     state = state()
                 rem = (ex.bound - self.cost) if ex.bound is not None else 0
                 prev = ex.cache.get(state)
-                if prev is not None and prev >= rem:
+                if self.pruned:
+                    pass        # soft-pruned earlier: run to the end on default answers, record nothing
+                elif prev is not None and prev >= rem:
                     self.pruned = True
-                    raise Pruned()
-                ex.cache[state] = rem
+                    if ex.abort_on_prune:
+                        raise Pruned()
+                else:
+                    ex.cache[state] = rem
             c = 0
-            self.points.append((i, n, costs, self.cost, state))
+            if not self.pruned:
+                self.points.append((i, n, costs, self.cost, state))
         if c:
             self.cost += costs[c] if costs else 1
         self.choices.append(c)
@@ -68,7 +74,13 @@ class Ctx:
 
 
 class Explorer:
-    def __init__(self, run, check=None, bound=None, cache=True, order="bfs", max_exec=None, keep_trace=False):
+    def __init__(self, run, check=None, bound=None, cache=True, order="bfs", max_exec=None, keep_trace=False,
+                 abort_on_prune=True, deadline=None):
+        self.deadline = deadline        # absolute time.time() after which the search stops and reports itself as capped
+        # abort_on_prune=False ("soft pruning"): an execution that reaches an already-expanded state is not cut by an
+        # exception inside the library; it runs to its natural end on default answers and is simply not expanded or
+        # judged again.  Use it where finishing is cheap, so the library is never abandoned in the middle of a call.
+        self.abort_on_prune = abort_on_prune
         self.run = run
         self.check = check
         self.bound = bound
@@ -101,13 +113,17 @@ class Explorer:
             if self.max_exec is not None and self.executions >= self.max_exec:
                 self.capped = True
                 break
+            if self.deadline is not None and not (self.executions & 255) and time.time() > self.deadline:
+                self.capped = True
+                break
             prefix = pop()
             ctx, obs = self.one(prefix)
             self.executions += 1
             # edges: the last prefix choice (the alternative taken) + each default step beyond the prefix
             self.transitions += (1 if prefix else 0) + len(ctx.points)
             self.max_depth = max(self.max_depth, len(ctx.choices))
-            if not ctx.pruned:
+            if not ctx.pruned or not self.abort_on_prune:
+                # (a soft-pruned execution ran to its natural end: judge it as well)
                 self.complete += 1
                 if self.check is not None:
                     self.check(ctx, obs)
